@@ -228,7 +228,10 @@ class ChannelChecker:
     def ghosts(self, where):
         # early warning on private state: one registered buffer per live subscription
         live = sum(1 for sub in self.subs.values() if sub['state'] in ('idle', 'busy'))
-        registered = len(self.channel._consumer_buffers)
+        buffers = getattr(self.channel, '_consumer_buffers', None)
+        if buffers is None:
+            return          # (private bookkeeping of another shape: not this monitor's business)
+        registered = len(buffers)
         self.stats['buffer_count_checks'] = self.stats.get('buffer_count_checks', 0) + 1
         if registered != live and not (
                 getattr(self, 'payload_listener', False) and registered == live + 1):
@@ -250,7 +253,7 @@ class ChannelChecker:
         waiting = [sub['who'] for sub in self.subs.values() if sub['state'] == 'idle']
         self.stats['quiescent_listeners_checked'] = self.stats.get(
             'quiescent_listeners_checked', 0) + len(waiting)
-        if waiting and self.channel._closed:
+        if waiting and getattr(self.channel, '_closed', False):
             self.violation('listener-not-closed',
                            'at quiescence %s still wait for messages of a closed channel' % (
                                waiting,))
